@@ -13,11 +13,15 @@ import (
 type famDef struct {
 	Property string
 	Run      func(*FamCtx)
-	Mk       func(Cfg) Executor
+	Mk       Runner
 }
 
 var families = map[string]famDef{
-	"map": {"C01", famMap, treeExecutor},
+	"map":     {"C01", famMap, mapRunner},
+	"canon":   {"C04", famCanon, exactRunner},
+	"persist": {"C05", famPersist, exactRunner},
+	"diff":    {"C06", famDiff, exactRunner},
+	"cursor":  {"C10", famCursor, exactRunner},
 }
 
 func main() {
@@ -63,7 +67,7 @@ func main() {
 		}
 		return
 	}
-	if *corpus != "" && fd.Mk != nil {
+	if *corpus != "" && fd.Mk.Mk != nil {
 		files, _ := filepath.Glob(filepath.Join(*corpus, "*.json"))
 		sort.Strings(files)
 		for _, p := range files {
